@@ -80,6 +80,20 @@ def run(ctx):
             cases.append({"id": "deep-s%d" % d, "b": schain(d), "t": 12, "odd": False})
             cases.append({"id": "deep-sl%d" % d, "b": [15, 0, 1] + lchain(d) + [3, 0, 2, 7, 0], "t": 12, "odd": False})
             cases.append({"id": "deep-m%d" % d, "b": [11, 12, 0, 0, 0, 1, 0, 0, 0, 1, 107] + schain(d), "t": 13, "odd": False})
+        # values that skipping accepts and reading rejects (a bool byte other than 0 / 1 inside a container of fixed-width
+        # items), wrapped in structs inside structs / lists / maps: forcing has to reach them wherever they sit
+        def be32b(n):
+            return [(n >> 24) & 255, (n >> 16) & 255, (n >> 8) & 255, n & 255]
+        inner = {"lb": (15, [2] + be32b(1) + [2]), "sb": (14, [2] + be32b(1) + [7]), "mib": (13, [8, 2] + be32b(1) + [0, 0, 0, 1, 255]),
+                 "mbi": (13, [2, 3] + be32b(1) + [2, 1]), "lsb": (15, [12] + be32b(1) + [2, 0, 1, 5, 0])}
+        def st(t, body):                # struct { 1: <t> body }
+            return [t, 0, 1] + body + [0]
+        for name, (t, body) in sorted(inner.items()):
+            wraps = {"s": (12, st(t, body)), "ss": (12, st(12, st(t, body))), "sss": (12, st(12, st(12, st(t, body)))),
+                     "lss": (15, [12] + be32b(1) + st(12, st(t, body))), "mss": (13, [3, 12] + be32b(1) + [1] + st(12, st(t, body))),
+                     "sls": (12, st(15, [12] + be32b(1) + st(t, body)))}
+            for w, (wt, wb) in sorted(wraps.items()):
+                cases.append({"id": "force-%s-%s" % (w, name), "b": wb, "t": wt, "odd": False})
         nrand = 6000 if ctx.quick() else 400000
     plain = [c for c in cases if c.get("odd", True)]
     noodd = [c for c in cases if not c.get("odd", True)]
